@@ -76,6 +76,7 @@ structure Obj where
   inSeq : Bool            -- some ancestor is a sequence diagram
   isSeq : Bool
   constNear : Bool
+  near : String           -- the near key (a constant such as top-left when `constNear`)
   labelPos : String
   labelH : Int
   hasLabel : Bool
